@@ -142,16 +142,21 @@ func bindSource(s *Summary, c *bindCase) {
 			body = uv.Encode()
 		}
 	}
-	if c.Params && ctype != "" {
-		ctype += "; charset=utf-8"
-	}
 	want := map[string]string{"query": "Q", "form": "F", "multipart": "M", "json": "J", "xml": "X"}[c.Source]
-	for api := 0; api < 2; api++ {
+	baseType := ctype
+	// media type parameters do not take part in the choice of the source, whatever characters their values hold
+	for api := 0; api < 6; api++ {
+		ctype = baseType
+		if c.Params && ctype != "" {
+			ctype += []string{"; charset=utf-8", "; version=2+beta; charset=utf-8", `; client="app+web/1.0"`}[api/2]
+		} else if api >= 2 {
+			break
+		}
 		var v bindT
 		req := mkReq(c.Method, "/b?age=1&name=Q&ok=true&tags=q", body, ctype)
 		var err error
 		var pan any
-		if api == 0 {
+		if api%2 == 0 {
 			err, pan = safeBind(func() error { return binding.Auto(req, &v) })
 		} else {
 			r := rux.New()
@@ -251,6 +256,39 @@ func bindValue(s *Summary, c *bindCase) {
 		}
 	}
 	binding.ResetValidator()
+	if !c.Valid {
+		// an invalid value followed by MORE well-formed input in the same body: whatever the binder makes of the rest, it
+		// never reports success for a struct that does not pass validation
+		tails := map[string][]string{"application/json": {" {", " 1", ` "x"`, " null", "\n{}", " []", " }"}, "text/xml": {"<x/>", "<!-- c -->", "<bindT></bindT>", "<"}}
+		for media, tl := range tails {
+			for _, tail := range tl {
+				raw, ctype := bodyFor(media, v)
+				for _, entry := range []string{"Auto", "Bind", "raw"} {
+					var got bindT
+					var err error
+					var pan any
+					switch {
+					case entry == "Auto":
+						err, pan = safeBind(func() error { return binding.Auto(mkReq("POST", "/b", raw+tail, ctype), &got) })
+					case entry == "Bind" && media == "text/xml":
+						err, pan = safeBind(func() error { return binding.XML.Bind(mkReq("POST", "/b", raw+tail, ctype), &got) })
+					case entry == "Bind":
+						err, pan = safeBind(func() error { return binding.JSON.Bind(mkReq("POST", "/b", raw+tail, ctype), &got) })
+					case media == "text/xml":
+						err, pan = safeBind(func() error { return binding.XML.BindBytes([]byte(raw+tail), &got) })
+					default:
+						err, pan = safeBind(func() error { return binding.JSON.BindBytes([]byte(raw+tail), &got) })
+					}
+					s.Compared++
+					if pan != nil || err == nil {
+						s.mismatch(map[string]any{"kind": "bind", "aspect": "roundtrip", "what": fmt.Sprintf(
+							"invalid value %+v encoded as %s and followed by %q in the same body, entry point %s, validator on: err=%v panic=%v - a bind that succeeds implies validation passed", v, media, tail, entry, err, pan)}, c)
+						return
+					}
+				}
+			}
+		}
+	}
 }
 
 type bindVoid struct {
